@@ -53,7 +53,10 @@ def check(cond, msg="") -> None:
     value realises it, which would split the path for no reason)."""
     if not cond:
         if callable(msg):
-            msg = msg()
+            try:
+                msg = msg()
+            except Exception as e:  # rendering must never hide the violation itself
+                msg = f"<violation message could not be rendered: {type(e).__name__}>"
         raise PropertyViolated(msg if isinstance(msg, str) else str(msg))
 
 
@@ -179,6 +182,8 @@ def _install_shims():
                 model_plain = t.__str__ is base_str and t.__format__ is object.__format__
             if not sym and isinstance(obj, (str, int, float, bool, type(None))):
                 return format(obj, format_spec)
+        if not sym and isinstance(obj, (list, tuple, dict, set, frozenset)):
+            return format(obj, format_spec)  # containers may hold symbolic values: CrossHair's own format realises them
         if sym:
             if OPAQUE_SYMBOLIC_FORMAT:
                 # harness-declared: in the code under test f-strings of symbolic values only build log/debug text.
